@@ -412,3 +412,32 @@ def set_market_status(self, data, price):
     self._borrows_amount_cache.reset()
     self._collaterals_amount_cache.reset()
 '''
+
+REF_SUPPLIES_VIEW = '''
+def supplies(self):
+    if self._supplies_cache.empty:
+        for k in self._supplies:
+            self._supplies_cache.set(k, self.get_supply(k))
+    return self._supplies_cache.value
+'''
+REF_BORROWS_VIEW = '''
+def borrows(self):
+    if self._borrows_cache.empty:
+        for k in self._borrows:
+            self._borrows_cache.set(k, self.get_borrow(k))
+    return self._borrows_cache.value
+'''
+REF_SUPPLY_APY = '''
+def supply_apy(self):
+    rates = {}
+    for k in self.supplies.keys():
+        rates[k] = self._market_status.data[k.name].liquidity_rate
+    return AaveV3CoreLib.get_apy(self.supplies_value, rates)
+'''
+REF_BORROW_APY = '''
+def borrow_apy(self):
+    rates = {}
+    for k in self._borrows.keys():
+        rates[k] = self._market_status.data[k.name].variable_borrow_rate
+    return AaveV3CoreLib.get_apy(self.borrows_value, rates)
+'''
